@@ -366,8 +366,13 @@ PyObject* HTMC::cbincount(double rmin, // units of scale*angle in radians
                         if (dis <= maxangle) {
                             double logr = logscale + log10(dis);
 
-                            int radbin = (int) ( (logr-logrmin)/log_binsize );
-                            if (radbin >=0 && radbin < nbin) {
+                            // floor, not a cast: a cast truncates toward
+                            // zero and would count separations just below
+                            // rmin in the first bin.  The range test comes
+                            // first since logr is -inf for coincident points
+                            double fbin = floor( (logr-logrmin)/log_binsize );
+                            if (fbin >=0 && fbin < nbin) {
+                                int radbin = (int) fbin;
                                 npy_int64 *cptr = (npy_int64 *) PyArray_GETPTR1((PyArrayObject *) counts_array, radbin);
                                 *cptr += 1;
                                 totcount+=1;
